@@ -31,7 +31,9 @@
 (***************************************************************************)
 EXTENDS Naturals, Sequences, FiniteSets, TLC
 
-CONSTANT Scope      \* 0 = quick domains, 1 = larger domains (thorough)
+CONSTANTS Scope,    \* 0 = quick domains, 1 = larger domains (thorough)
+          Defects   \* the open findings of known_findings/C16.json that the reference reader mirrors
+                    \* ("F1": a HashMap in an attribute is not readable from a model value)
 
 (***************************************************************************)
 (* 1. Abstract model values                                                *)
@@ -373,7 +375,9 @@ ReadAttrBody(t, hv) ==
       [] t.c = "vec" -> IF IsRec(hv) /\ hv.attrs = <<>> THEN Read(t, hv)
                         ELSE LET r == Read(t.e, hv) IN IF r.ok THEN Ok(VecI(<<r.x>>)) ELSE Fail
       \* HashMapRecognizer::new_attr expects the entries directly in the attribute: never what the bridge feeds
-      [] t.c = "map" -> Fail
+      \* (finding F1; repaired, it is collapsible like Vec)
+      [] t.c = "map" -> IF "F1" \in Defects THEN Fail
+                        ELSE IF IsRec(hv) /\ hv.attrs = <<>> THEN Read(t, hv) ELSE Fail
       [] OTHER -> Read(t, hv)
 
 \* the value of the field f if it is absent from the document
